@@ -369,3 +369,125 @@ def sched_line_starts(data, group=1):
     if cur:
         toks.append(str(cur))
     return toks
+
+
+# --------------------------------------------------------------------------- round 3
+def text_pool():
+    """free-text values with multi-byte UTF-8 characters at every offset class around 64 / 256 / 4096 bytes, so that
+    any fixed byte cut lands inside a character for some of them; plus plain ASCII of the same lengths"""
+    out = []
+    for target in (64, 256, 4096):
+        for ch in ("é", "€", "\U0001F600"):          # 2, 3, 4 bytes
+            w = len(ch.encode())
+            for off in range(w):
+                n = (target + 8 - off) // w + 1
+                out.append(b"a" * off + (ch * n).encode())
+        out.append(b"x" * (target + 3))
+    out.append("é".encode() * 40 + b" tail with spaces ")
+    return out
+
+
+FREE_TEXT_TEMPLATES = [
+    "MODULE Linux x86 ABC {t}", "INFO URL {t}", "INFO CODE_ID {t}", "FILE 1 {t}", "INLINE_ORIGIN 2 {t}",
+    "PUBLIC 1000 0 {t}", "PUBLIC m 1000 0 {t}", "FUNC 1000 10 0 {t}", "FUNC m 1000 10 0 {t}",
+    "STACK CFI INIT 1000 10 {t}", "STACK CFI INIT 1000 10 .cfa: $esp 4 +\nSTACK CFI 1004 {t}",
+    "FUNC 1000 10 0 f\nINLINE_ORIGIN 3 {t}",
+    # STACK WIN: consistent, and the tolerated-but-discarded combinations of type and has_program_string
+    "STACK WIN 4 1000 10 0 0 0 0 0 0 1 {t}", "STACK WIN 0 1000 10 0 0 0 0 0 0 0 {t}",
+    "STACK WIN 4 1000 10 0 0 0 0 0 0 0 {t}", "STACK WIN 0 1000 10 0 0 0 0 0 0 1 {t}",
+    "STACK WIN 1 1000 10 0 0 0 0 0 0 1 {t}", "STACK WIN a 1000 10 0 0 0 0 0 0 0 {t}",
+    "STACK WIN 4 1000 0 0 0 0 0 0 0 1 {t}", "STACK WIN 0 ffffffffffffffff 10 0 0 0 0 0 0 0 {t}",
+]
+
+
+def free_text_files():
+    """every free-text field of every record kind (and every tolerated-malformed STACK WIN shape) x the text pool"""
+    out = []
+    pool = text_pool()
+    for t in FREE_TEXT_TEMPLATES:
+        for txt in pool:
+            body = t.encode().replace(b"{t}", txt)
+            if t.startswith("MODULE"):
+                out.append(body + b"\nFILE 5 after\n")
+            else:
+                out.append(b"MODULE Linux x86 ABC name\n" + body + b"\nFILE 5 after\n")
+    return out
+
+
+def _pad_lines(total):
+    """complete FILE lines adding up to exactly `total` bytes (total >= 12)"""
+    out, left, i = [], total, 0
+    while left > 0:
+        n = 1000 if left >= 1012 else left        # a line of n bytes: "FILE <i> " + filler + "\n"
+        if 0 < left - n < 12:
+            n = left - 12
+        head = b"FILE %d " % (i % 10)
+        out.append(head + b"p" * (n - len(head) - 1))
+        left -= n
+        i += 1
+    return out
+
+
+def aligned_files():
+    """(data, schedule, label): the complete lines at the front of a full buffer window end exactly at capacity/2
+    (and 1 byte before / after it), followed by a line that does not fit the rest of the window. Every line is a valid
+    record, so the expected result is Ok (over-long lines are dropped, they are never the first line)."""
+    out = []
+    mod = b"MODULE Linux x86 ABC name"                      # 26 bytes with its '\n'
+    for cap in (10240, 20480, 40960, 81920, 163840):
+        half = cap // 2
+        # bring the buffer to capacity `cap` and empty it: a line A that needs exactly that capacity
+        if cap == 10240:
+            pre_lines, sched, used = [mod], [], 26
+        else:
+            reads = [10214]
+            c = 10240
+            while c * 2 < cap:
+                reads.append(c * 2 - sum(reads) if len(reads) == 1 else c)
+                c *= 2
+            la = sum(reads) + 1000
+            a = b"FILE 3 " + b"A" * (la - 8)
+            pre_lines, sched, used = [mod, a], ["26"] + [str(r) for r in reads] + ["1000"], 0
+        for delta in (-1, 0, 1):
+            for longc in (6000, 71680, 200000, 1 << 20):
+                if longc + 1 <= cap - (half + delta - used):
+                    longc = cap          # must not fit the rest of the window
+                front = _pad_lines(half + delta - used)
+                lines = pre_lines + front + [b"FILE 7 " + b"L" * (longc - 7), b"FILE 9 z"]
+                data = b"\n".join(lines) + b"\n"
+                out.append((data, sched, "cap%d%+d" % (cap, delta)))
+    return out
+
+
+def module_again_files():
+    """a second MODULE record at every position of a small file with every record kind (after each record, inside
+    the FUNC and CFI groups, after leading blank lines, two .sym files concatenated)"""
+    base = [b"MODULE Linux x86 ABC name", b"INFO CODE_ID 1 n", b"FILE 1 a.c", b"PUBLIC 10 0 p", b"FUNC 20 8 0 f", b"20 4 1 1",
+            b"INLINE 0 1 1 1 20 4", b"24 4 2 1", b"STACK WIN 4 20 8 0 0 0 0 0 0 1 $eip", b"STACK CFI INIT 20 8 .cfa: $esp",
+            b"STACK CFI 24 .cfa: $esp 4 +", b"INLINE_ORIGIN 1 g"]
+    out = []
+    m2 = b"MODULE mac arm64 DEF other"
+    for pos in range(1, len(base) + 1):
+        out.append(b"\n".join(base[:pos] + [m2] + base[pos:]) + b"\n")
+    out.append(b"\n" + b"\n".join(base) + b"\n")               # MODULE after a leading blank line
+    out.append(b"\r\n\r\n" + b"\r\n".join(base) + b"\r\n")
+    out.append(b"\n".join(base + base) + b"\n")                # two files concatenated
+    out.append(b"\n".join([base[0], base[0]] + base[1:]) + b"\n")   # duplicated first line
+    return out
+
+
+def orphan_files(rng, n):
+    """the over-long line is the header of a group (FUNC / STACK CFI INIT) that has sub-lines, and the record in front
+    of it is of another kind: every other line is a valid record"""
+    out = []
+    for i in range(n):
+        pre = rng.choice([[b"FILE 1 a.c"], [b"PUBLIC 10 0 p"], [b"INFO x"], [b"STACK CFI INIT 20 8 .cfa: $esp", b"STACK CFI 24 .cfa: $esp 4 +"]])
+        big = 163840 + rng.choice([0, 1, 1000, 200000])
+        if rng.chance(1, 2) and pre[0][:9] != b"STACK CFI":
+            grp = [b"FUNC 1000 10 0 " + b"N" * (big - 15), b"1000 4 1 1"] + [b"1004 4 2 1"] * rng.below(3)
+        else:
+            pre = [b"FILE 1 a.c"] if pre[0][:9] == b"STACK CFI" else pre
+            grp = [b"STACK CFI INIT 1000 10 " + b"R" * (big - 23), b"STACK CFI 1004 .cfa: $esp 8 +"]
+        data = b"\n".join([b"MODULE Linux x86 ABC name"] + pre + grp + [b"FILE 9 z"]) + b"\n"
+        out.append(data)
+    return out
